@@ -421,7 +421,8 @@ def thorough_extras(prop, sel, repo, known):
     kf = [k for k in known if k["property"] == prop]
     replays = {"C01": [("notes/design-phase-replays.rs", "f4_own_immediate_merge_has_no_snapshot")],
                "C16": [("notes/design-phase-replays.rs", "f3_welcome_for_held_group_id_disturbs_active_group")],
-               "C06": [("findings/f10_replay.rs", "verif_replay_f10")],
+               "C06": [("findings/f10_replay.rs", "verif_replay_f10"), ("findings/f12_replay.rs", "verif_replay_f12")],
+               "C08": [("findings/f12_replay.rs", "verif_replay_f12")],
                "C05": [("notes/design-phase-replays.rs", "f5_admin_add_sweeps_foreign_remove_proposal"), ("findings/f5b_replay.rs", "verif_replay_f5b"), ("findings/f5cd_replay.rs", "verif_replay_f5cd")]}
     if kf and prop in replays:
         d = scratch_copy(repo, "replay")
